@@ -342,12 +342,32 @@ def thresholdSmallExp (W : Nat) : Int := (W * 60206 / 100000 : Nat)
 inductive ConvResult where
   | ok (r : Rounded FRepr)
   | unlimitedPrecision
+  | reprDivPanic                -- `repr_div` called outside its precondition (debug assertion)
   | lnExp                       -- the large-exponent branch (through `ln`/`exp`): not mirrored
   deriving Repr
 
+/-- single exact rounding of `num / den` (normalised reprs of the new base, `den > 0`) to `p` digits
+    when the quotient of the significands has more than `p` digits: split the quotient and feed the
+    whole tail (low quotient digits and remainder) to `round_ratio` — the repair proposed for the
+    small-negative-exponent branch -/
+def divRoundLong (NewB : Nat) (m : Mode) (p : Nat) (num den : FRepr) : Rounded FRepr :=
+  let q := Int.tdiv num.signif den.signif
+  let r := Int.tmod num.signif den.signif
+  let shift := digitsI NewB q - p
+  let hl := splitDigits NewB q shift
+  let scale : Int := den.signif * ((NewB ^ shift : Nat) : Int)
+  let rem : Int := hl.2 * den.signif + r
+  let exp : Int := num.exp - den.exp + shift
+  if rem = 0 then (FRepr.new NewB hl.1 exp, none)
+  else
+    let adj := roundRatio m hl.1 rem scale
+    (FRepr.new NewB (hl.1 + rInt adj) exp, some adj)
+
 /-- `Context::<R>::convert_base::<B, NewB>(repr)` at precision `p` (finite input), as of commit
-    02e179b (every branch rounds to the target precision). -/
-def convertBase (W : Nat) (B NewB : Nat) (m : Mode) (p : Nat) (r : FRepr) : ConvResult :=
+    02e179b (every branch rounds to the target precision).
+    `fixed`: the small-negative-exponent branch does not hand `repr_div` a dividend that is longer than
+    `repr_div` supports (debug assertion in the code; an over-long, unrounded result in release). -/
+def convertBase (W : Nat) (fixed : Bool) (B NewB : Nat) (m : Mode) (p : Nat) (r : FRepr) : ConvResult :=
   if NewB = B then .ok (r, none)
   else
     let up := if NewB > B then ilogExact NewB B else 0
@@ -363,9 +383,16 @@ def convertBase (W : Nat) (B NewB : Nat) (m : Mode) (p : Nat) (r : FRepr) : Conv
       if r.exp ≥ 0 then
         .ok (reprRound NewB m coarseNone p (FRepr.new NewB (r.signif * ((B ^ r.exp.toNat : Nat) : Int)) 0))
       else
-        match reprDiv NewB m p (FRepr.new NewB r.signif 0) (FRepr.new NewB ((B ^ (-r.exp).toNat : Nat) : Int) 0) with
-        | .ok v => .ok v
-        | .error _ => .unlimitedPrecision
+        let num := FRepr.new NewB r.signif 0
+        let den := FRepr.new NewB ((B ^ (-r.exp).toNat : Nat) : Int) 0
+        if num.digits NewB > p + den.digits NewB then
+          if fixed then
+            .ok (divRoundLong NewB m p num den)
+          else .reprDivPanic
+        else
+          match reprDiv NewB m p num den with
+          | .ok v => .ok v
+          | .error _ => .unlimitedPrecision
     else .lnExp
 
 /-- the precision `with_base` derives: `B^p.log2_bounds().0 / NewB.log2_bounds().1` in `f32`,
